@@ -194,12 +194,25 @@ func VerifC05SeqArrow() {
 	verifAssert("seqarrow-count", rs.Count() == verifDenCount(want))
 }
 
-// verif:bound VerifC05Concat a ++ b for String/Bytes/Array pairs of the same kind, each length 1..2 (thorough: 1..3), offsets in [-2,2]
+// verif:bound VerifC05Concat a ++ b for String/Bytes/Array pairs of the same kind, each length 1..2 (thorough: 1..3; a left string 1..3 with possibly one interior hole, or 5 wide with two adjacent interior holes), offsets in [-2,2]
 // verif:cover VerifC05Concat clean collision
 func VerifC05Concat() {
 	rep := verifChoice(3)
 	maxLen := verifWiden(2, 3)
-	a, da := verifSeqValue(rep, maxLen, false)
+	// the left string may carry an interior hole (its index span then exceeds its element count)
+	aLen := maxLen
+	if rep == 0 {
+		aLen = 3
+	}
+	a, da := verifSeqValue(rep, aLen, rep == 0)
+	if rep == 0 && verifChoice(2) == 1 {
+		// two adjacent interior holes, made by the real Without: the index right after the
+		// element count is then free, so the appended part lands in the gap without colliding
+		o := verifNondetIntIn(-1, 1)
+		rs := []rune{verifSmallChar(), verifSmallChar(), 'x', 'y', verifSmallChar()}
+		a = NewOffsetString(rs, o).Without(NewStringCharTuple(o+2, 'x')).Without(NewStringCharTuple(o+3, 'y'))
+		da = verifDenSeq(a)
+	}
 	b, db := verifSeqValue(rep, maxLen, false)
 	want := append([]verifPair(nil), da...)
 	na := a.Count()
